@@ -867,9 +867,12 @@ impl<R: BufRead + Seek> WebPDecoder<R> {
     pub fn reset_animation(&mut self) {
         assert!(self.is_animated());
 
-        self.animation.next_frame = 0;
-        self.animation.next_frame_start = self.chunks.get(&WebPRiffChunk::ANMF).unwrap().start - 8;
-        self.animation.dispose_next_frame = true;
+        // Start over from a fresh state: the canvas carried over from the previous pass and the
+        // rectangle of the last frame drawn must not leak into the first frame.
+        self.animation = AnimationState {
+            next_frame_start: self.chunks.get(&WebPRiffChunk::ANMF).unwrap().start - 8,
+            ..Default::default()
+        };
     }
 }
 
